@@ -151,6 +151,14 @@ CLAIMED = {
              "_build_response forwards all four fields; variants' .parsed; status parsing contained; reference resolution rebinds "
              "only `data`. Not decided: decoding of values.",
         ref="DESIGN.md §4 C04"),
+    "C01": dict(
+        technique="import-closure analysis (names used by each kind's macros and type strings vs. host header + get_imports, per requiredness and host), template-structure rules with truth tables, lexical-neutrality of template blocks (generated-language lexer), E6 on leading underscores",
+        text="Necessary conditions only (compiling/importing every output is NOT decided): 64 import-closure obligations (16 kinds x "
+             "required/optional x model/endpoint host); check_ helper named by one method at definition/import/use; lazy imports "
+             "first in every model function that can use a model class at run time; quoted evaluated annotations; declaration "
+             "order by truth table; every template block lexically neutral and every rendered template ends in CODE; dispatch "
+             "totality; leading-underscore inputs never yield leading-underscore names (E6, all code points).",
+        ref="DESIGN.md §4 C01"),
 }
 
 NOT_APPLICABLE = {
